@@ -483,6 +483,10 @@ func tConcat(gg *ggraph, rt *rapid.T) bool {
 	ins := []string{a.name}
 	out := cloneInts(a.shape)
 	k := rapid.IntRange(1, 3).Draw(rt, "catN")
+	if rapid.IntRange(0, 39).Draw(rt, "wideConcat") == 0 {
+		k = rapid.SampledFrom([]int{17, 20, 33, 40}).Draw(rt, "catWide") // far more inputs than usual
+		gg.feat("wide-concat")
+	}
 	for i := 1; i < k; i++ {
 		b, ok := gg.pick(rt, "catB", func(v gv) bool {
 			if v.dt != a.dt || v.batch != a.batch || len(v.shape) != r || v.init {
